@@ -1,9 +1,10 @@
 """C11 — state types serialize and deserialize losslessly.
 
-LiQuer's own logic is DISPATCH (registry look-up, default extension, media type) and FRAMING (the `djson`
-dictionary format); the codecs are third party.  Correspondence: registry look-up, dispatch decisions of
-encode_state_data, JSON key escaping, `djson` text and its decoding vs LiquerModel.StateTypes over the
-regenerated registry.  Oracle (implementation only): for every (state type, extension) pair the translator
+LiQuer's own logic is DISPATCH (registry look-up, default extension, media type), FRAMING (the `djson`
+dictionary format) and the two own codecs (TextStateType: UTF-8 with strict decoding, BytesStateType: identity),
+whose round-trip law is proved; the other codecs are third party.  Correspondence: registry look-up, dispatch
+decisions of encode_state_data, JSON key escaping, `djson` text and its decoding, as_bytes / from_bytes of the text
+and bytes state types (invalid UTF-8 included) vs LiquerModel.StateTypes / StateTypesCodec over the regenerated registry.  Oracle (implementation only): for every (state type, extension) pair the translator
 probed as written and read, on the value domain the property quantifies over, decode(encode(x)) == x with
 the same type through the recorded type identifier; copy_state_data equality and non-aliasing.
 """
@@ -19,14 +20,17 @@ RULE = ("seeded generators per (state type, extension) pair in writes∩reads (q
         "class instances), data frames with mixed columns (None/NaN, empty, non-default index) in pickle/parquet/feather; "
         "non-trivial = value that is not one of the translator's probe samples")
 TRUSTED = ["modelled (hand-written Lean mirror): StateTypesRegistry.get, encode_state_data / decode_state_data dispatch, media type per core state type, "
-           "DictStateType djson framing, encode_element / decode_element triples, json.dumps key escaping and the JSON string scanner",
+           "DictStateType djson framing, encode_element / decode_element triples, json.dumps key escaping and the JSON string scanner, "
+           "TextStateType / BytesStateType as_bytes, from_bytes, copy (ownCodec; UTF-8 = Lean core's String.utf8EncodeChar / ByteArray.utf8Decode?, "
+           "compared with str.encode / bytes.decode on valid and invalid input)",
            "third-party codecs (json, pickle, base64, pandas/pyarrow) are hypotheses of the theorems (CodecLaw, ElemEnvLaw): validated here differentially, not proved",
            "registry content probed from the live state type objects on the sample values listed in Gen/StateTypes.lean"]
 ASSUMPTIONS = ["Python str restricted to Unicode scalar values (lone surrogates cannot be UTF-8 encoded)",
                "a value the codec refuses at encoding time (exception) is outside 'representable in the format' (counted as refused, never silently accepted)",
                "dictionaries nested inside a djson dictionary have string keys as well (the format asserts it)",
                "data frames: only pickle/pkl/parquet/feather are claimed lossless; csv/tsv/json/html are checked for decoder acceptance only"]
-EXPLANATION = ("theorems: c11_dispatch (decide over the regenerated registry), c11_roundtrip_generic under CodecLaw, c11_key_roundtrip for every scalar-value "
+EXPLANATION = ("theorems: c11_dispatch (decide over the regenerated registry), c11_roundtrip_generic under CodecLaw, c11_text_codec_law / c11_bytes_codec_law "
+               "(the law PROVED for the two own codecs, every scalar-value string and every byte string) and c11_own_roundtrip / c11_own_copy (no codec hypothesis), c11_key_roundtrip for every scalar-value "
                "string, c11_djson/c11_djson_elements/c11_djson_full for every dictionary under the element laws")
 
 ADV_KEYS = ["", '"', "\\", 'a"b', "a\\b", "\n", "a\nb", ":", "a:b", '": 1, "x', "é", "𝄞", " ", " ", "a b", "\t", "\x00", "\x7f", "}", "{", ",",
@@ -451,11 +455,139 @@ def probe_registration(ctx):
     ctx.compare("registration histories: object under every key vs registerAll (st.reg)", cases, impl, ctx.driver.ask(reqs))
 
 
+def gen_own_text(rng):
+    """strings of Unicode scalar values: ASCII, two/three/four-byte characters, boundaries of every UTF-8 length, NUL, BOM, long"""
+    r = rng.random()
+    if r < 0.05:
+        return ""
+    if r < 0.2:
+        return rng.choice(["a", "\x00", "a\x00b", "\x7f", "\x80", "\u07ff", "\u0800", "\ud7ff", "\ue000", "\ufeffbom", "\ufffd", "\uffff", "\U00010000", "\U0010ffff",
+                           "h\xe9\U0001d11e", "\r\n\t", "\u2028\u2029", "\xe9" * 7, "\U0001f600" * 5, "\u65e5\u672c\u8a9e"])
+    if r < 0.3:
+        return gen_text(rng)
+    if r < 0.35:     # long
+        return "".join(rng.choice(["a", "\xe9", "\u20ac", "\U0001d11e", "\n", "\x00"]) for _ in range(rng.randint(2000, 6000)))
+    pools = [(0x0, 0x7f), (0x80, 0x7ff), (0x800, 0xffff), (0x10000, 0x10ffff), (0x0, 0x10ffff)]
+    out = []
+    for _ in range(rng.randint(1, 24)):
+        lo, hi = rng.choice(pools)
+        c = rng.randint(lo, hi)
+        while 0xD800 <= c < 0xE000:
+            c = rng.randint(lo, hi)
+        out.append(chr(c))
+    return "".join(out)
+
+
+INVALID_UTF8 = [b"\x80", b"\xbf", b"\xc3", b"a\xc3", b"\xc3a", b"\xc0\x80", b"\xc1\xbf", b"\xe0\x80\x80", b"\xe0\x9f\xbf", b"\xe2\x82", b"\xe2\x82a",
+                b"\xed\xa0\x80", b"\xed\xbf\xbf", b"\xed\xa0\x81\xed\xb0\x80", b"\xf0\x80\x80\x80", b"\xf0\x8f\xbf\xbf", b"\xf0\x9d\x84", b"\xf0\x9d",
+                b"\xf4\x90\x80\x80", b"\xf5\x80\x80\x80", b"\xf8\x88\x80\x80\x80", b"\xfe", b"\xff", b"\xff\xfe", b"ok\xffok", b"\xe9", b"h\xe9llo",
+                b"\xc3\xa9\xc3", b"\xef\xbb", b"\x00\x80"]
+VALID_EDGE_UTF8 = [b"", b"\x00", b"\x7f", b"\xc2\x80", b"\xdf\xbf", b"\xe0\xa0\x80", b"\xed\x9f\xbf", b"\xee\x80\x80", b"\xef\xbf\xbf", b"\xf0\x90\x80\x80",
+                   b"\xf4\x8f\xbf\xbf", b"\xef\xbb\xbfbom", b"\xef\xbf\xbd"]
+
+
+def gen_own_bytes_to_decode(rng):
+    """byte strings handed to TextStateType.from_bytes: valid UTF-8, the classic invalid forms, random bytes, damaged valid text"""
+    r = rng.random()
+    if r < 0.2:
+        return rng.choice(INVALID_UTF8)
+    if r < 0.3:
+        return rng.choice(VALID_EDGE_UTF8)
+    if r < 0.5:
+        return gen_own_text(rng).encode("utf-8")
+    if r < 0.7:
+        return bytes(rng.randrange(256) for _ in range(rng.randint(1, 12)))
+    b = bytearray(gen_own_text(rng).encode("utf-8") or b"\xc3\xa9")
+    for _ in range(rng.randint(1, 2)):      # damage: delete / overwrite / insert one byte
+        i = rng.randrange(len(b)) if b else 0
+        k = rng.random()
+        if k < 0.4 and b:
+            del b[i]
+        elif k < 0.8 and b:
+            b[i] = rng.choice([0x80, 0xbf, 0xc0, 0xe0, 0xed, 0xf0, 0xf4, 0xf5, 0xff, rng.randrange(256)])
+        else:
+            b.insert(i, rng.choice([0x80, 0xc3, 0xe2, 0xf0, 0xff]))
+    return bytes(b)
+
+
+def probe_own_codecs(ctx):
+    """the two codecs that are LiQuer's own code (TextStateType: UTF-8 / strict decoding, BytesStateType: identity) vs the model
+    `Liquer.StateTypes.ownCodec` the theorems c11_text_codec_law / c11_bytes_codec_law / c11_own_roundtrip are about (`st.own`).
+    Oracle on the way: from_bytes(as_bytes(s)) == s for every generated string, copy() returns an equal value."""
+    import liquer.state_types as S
+    rng = ctx.rng
+    T, B = S.TextStateType(), S.BytesStateType()
+    n = 4000 if ctx.tier == "thorough" else 500
+    stream = "own codecs: TextStateType / BytesStateType as_bytes, from_bytes vs ownCodec (st.own)"
+    cases, impl, reqs = [], [], []
+
+    def ext_of():
+        return rng.choice([None, "txt", "html", "json", "csv", "b", "zzz", "png"])
+
+    def call(f, *a):
+        try:
+            return f(*a)
+        except Exception as ex:
+            return ex
+
+    # ---- text: as_bytes
+    texts = ["", "h\xe9\U0001d11e", "\x00", "\ufeff"] + [gen_own_text(rng) for _ in range(n)]
+    for s in texts:
+        if has_surrogate(s):
+            continue
+        e = ext_of()
+        r = call(T.as_bytes, s, e)
+        cases.append("text as_bytes(%s, %r)" % (describe(s)[:60], e))
+        impl.append("raise" if isinstance(r, Exception) else "ok " + hx(r[0]))
+        reqs.append("st.own text enc %s %s" % (hx(e or T.default_extension()), hx(s)))
+        ctx.case("own:text:%s" % describe(s)[:40] if s not in ("", "h\xe9llo\n") else None)
+        ctx.count("own codec inputs", "text to encode: " + ("empty" if not s else "ascii" if s.isascii() else "astral" if any(ord(c) > 0xffff for c in s) else "non-ascii BMP"))
+        if not isinstance(r, Exception):
+            back = call(T.from_bytes, r[0], e)
+            if isinstance(back, Exception) or back != s or type(back) is not str:
+                ctx.violation("own:text:%s" % describe(s)[:80], "TextStateType: %s written as .%s reads back as %s" % (describe(s), e, describe(back)),
+                              dict(kind="rt", ident="text", ext=e or "txt", value=pack(s), repr=describe(s)))
+            c = call(T.copy, s)
+            if isinstance(c, Exception) or c != s:
+                ctx.violation("own:textcopy:%s" % describe(s)[:80], "TextStateType.copy(%s) = %s" % (describe(s), describe(c)), dict(kind="copy", value=pack(s), repr=describe(s)))
+    # ---- text: from_bytes, valid and INVALID UTF-8 (Python raises UnicodeDecodeError, the model answers `raise`)
+    blobs = INVALID_UTF8 + VALID_EDGE_UTF8 + [gen_own_bytes_to_decode(rng) for _ in range(2 * n)]
+    for b in blobs:
+        e = ext_of()
+        r = call(T.from_bytes, b, e)
+        cases.append("text from_bytes(%r, %r)" % (b[:40], e))
+        impl.append("raise" if isinstance(r, Exception) else "UNMODELLED-IMPL" if has_surrogate(r) else "ok " + hx(r))
+        reqs.append("st.own text dec %s %s" % (hx(e or T.default_extension()), hx(b)))
+        ctx.count("own codec inputs", "bytes to decode as text: " + ("invalid UTF-8 (raises)" if isinstance(r, Exception) else "valid UTF-8"))
+        if not isinstance(r, Exception):      # exactness: what decodes encodes back to the very same bytes
+            again = call(T.as_bytes, r)
+            if isinstance(again, Exception) or again[0] != b:
+                ctx.violation("own:textexact:%s" % b[:40].hex(), "TextStateType.from_bytes(%r) = %s, which is written as %r" % (b[:80], describe(r), again if isinstance(again, Exception) else again[0][:80]),
+                              dict(kind="textexact", bytes=b.hex()))
+    # ---- bytes: both directions
+    for b in [b"", bytes(range(256)), b"\x00", b"\xff\xfe"] + [gen_bytes(rng) for _ in range(n // 2)]:
+        for op, f in (("enc", lambda x, e: B.as_bytes(x, e)[0]), ("dec", B.from_bytes)):
+            e = ext_of()
+            r = call(f, b, e)
+            cases.append("bytes %s(%r, %r)" % (op, b[:40], e))
+            impl.append("raise" if isinstance(r, Exception) else "ok " + hx(r) if type(r) is bytes else "BADTYPE")
+            reqs.append("st.own bytes %s %s %s" % (op, hx(e or B.default_extension()), hx(b)))
+        c = call(B.copy, b)
+        if isinstance(c, Exception) or c != b or type(c) is not bytes:
+            ctx.violation("own:bytescopy:%s" % b[:40].hex(), "BytesStateType.copy(%r) = %r" % (b[:80], c), dict(kind="copy", value=pack(b), repr=describe(b)))
+        ctx.count("own codec inputs", "byte strings through BytesStateType")
+    model = ctx.driver.ask(reqs)
+    if model is not None:
+        model = ["UNMODELLED" if a == "UNMODELLED-IMPL" else m for a, m in zip(impl, model)]
+    ctx.compare(stream, cases, impl, model)
+
+
 def run(ctx):
     import liquer.state_types as S
     import liquer.constants as K
     rng = ctx.rng
     probe_registration(ctx)
+    probe_own_codecs(ctx)
     sv = gen_statetypes.survey()
     reg = S.state_types_registry()
     rows = {r["ident"]: r for r in sv["rows"]}
@@ -672,6 +804,14 @@ def replay(ctx, case):
         return None
     if case["kind"] == "copy":
         return oracle_copy(S, pickle.loads(base64.b64decode(case["value"])))
+    if case["kind"] == "textexact":
+        b = bytes.fromhex(case["bytes"])
+        try:
+            t = S.TextStateType().from_bytes(b)
+        except Exception:
+            return None
+        again = S.TextStateType().as_bytes(t)[0]
+        return None if again == b else "TextStateType.from_bytes(%r) = %r, which is written as %r" % (b, t, again)
     if case["kind"] == "default":
         sv = gen_statetypes.survey()
         for r in sv["rows"]:
